@@ -54,6 +54,12 @@ def work_1d(item):
         vals = [sp.eval(p) for p in pts]
         st.update(u=u, n=n, pts=pts)
         out = dict(vals=vals, coeffs=list(sp.coeffs), u=list(u), pts=pts)
+        # the same Spline1D object re-used for identically zero data: the result is the zero spline (all coefficients, wrapped
+        # copies included), whatever the object held before
+        zero = np.empty(n, dtype=object)
+        zero[...] = K(0)
+        interp.compute_interpolant(zero, sp)
+        out['zero_coeffs'] = list(sp.coeffs)
         # polynomial reproduction on clamped spaces: data = P(x_i), P symbolic of degree <= p; S(x) == P(x) for symbolic x
         if not periodic:
             a = [SReal(z3.Real('a%d' % k)) for k in range(degree + 1)]
@@ -78,6 +84,10 @@ def work_1d(item):
             sp = m['spl'].Spline1D(fb, dtype=complex if dtype == 'complex' else float)
             ug = np.array([float(v) for v in uvals], dtype=complex if dtype == 'complex' else float)
             it.compute_interpolant(ug, sp)
+            kept = sp.coeffs.copy()
+            it.compute_interpolant(np.zeros_like(ug), sp)
+            zero_left = float(np.max(np.abs(sp.coeffs)))
+            sp.coeffs[:] = kept
             got = np.array([sp.eval(float(p)) if dtype != 'complex' else None for p in fb.greville]) if dtype != 'complex' else None
             if dtype == 'complex':
                 re = m['spl'].Spline1D(fb)
@@ -94,6 +104,8 @@ def work_1d(item):
         scale = max([abs(float(v)) for v in uvals]) or 1.0          # relative to the data magnitude (tiny data included)
         if err > 1e-8 * scale or wrap > 0:
             return 'interpolant misses its data by %.3g (wrap mismatch %.3g)' % (err, wrap)
+        if zero_left > 0:
+            return 'interpolating identically zero data into a spline that held another interpolant leaves coefficients up to %.3g' % zero_left
         return None
 
     for ctx, (kind, val) in symx.explore(body, timeout_ms=30000, index_cap=64, maxpaths=3000):
@@ -114,6 +126,7 @@ def work_1d(item):
             continue
         u, vals, pts = val['u'], val['vals'], val['pts']
         bad = [toreal(zt(v)) != toreal(zt(ui)) for v, ui in zip(vals, u)]
+        bad += [toreal(zt(K(c))) != 0 for c in val['zero_coeffs']]
         if periodic:
             cs = val['coeffs']
             n = st['n']
